@@ -190,8 +190,49 @@ func fault(g *cur, id, kind int) {
 			log.Fatal("boomlf", id)
 		}
 		panic("boomlf" + strconv.Itoa(id))
+	case 18:
+		// run-time faults in less usual syntactic places: the condition of an if
+		a := []int{1, 2, 3}
+		i := 3 + id
+		if a[i] > 0 {
+			g.emit("unreachable-if")
+		}
+	case 19:
+		// the condition of a for statement
+		z := id - id
+		for i := 0; i < 10/z; i++ {
+			g.emit("unreachable-for")
+		}
+	case 20:
+		// an operand of a composite literal
+		a := []int{1, 2, 3}
+		i := 3 + id
+		s := []int{1, a[i], 3}
+		g.emit(strconv.Itoa(len(s)))
+	case 21:
+		// the left-hand side of an assignment
+		a := []int{1, 2, 3}
+		i := 3 + id
+		a[i] = 5
+		g.emit(strconv.Itoa(a[0]))
+	case 22:
+		// an argument of a call
+		var p *pt
+		g.emit(strconv.Itoa(sq(p.y)))
+	case 23:
+		// the operand of a return statement
+		g.emit(strconv.Itoa(conv("str" + strconv.Itoa(id))))
+	case 24:
+		// the tag of a switch statement
+		var m map[string][]int
+		switch m["k"][id] {
+		case 1:
+			g.emit("unreachable-switch")
+		}
 	}
 }
+
+func conv(x interface{}) int { return x.(int) }
 
 // node is one activation.
 func node(g *cur, depth, id int) (res int) {
@@ -315,9 +356,13 @@ func node(g *cur, depth, id int) (res int) {
 						panic("again" + strconv.Itoa(id)) // recover then re-panic
 					case 3:
 						panic(r) // re-panic with the same value
+					case 4:
+						// a second recover in the same deferred call: the panic has been
+						// stopped already, it returns nil
+						g.emit("d-recover-twice " + strconv.Itoa(id) + " " + Classify(recover()))
 					}
 				}
-			}(j, g.next()%4)
+			}(j, g.next()%5)
 		case 6:
 			defer func() { deepRecover(g) }()
 		case 7:
@@ -350,10 +395,10 @@ func node(g *cur, depth, id int) (res int) {
 		b := node(g, depth+1, id*3+2)
 		res = a + b
 	case 3:
-		fault(g, id, g.next()%18)
+		fault(g, id, g.next()%25)
 		res = -1
 	case 6:
-		k := g.next() % 18
+		k := g.next() % 25
 		faultVia(g, id, k, g.next())
 		res = -1
 	case 4:
@@ -393,7 +438,7 @@ func node(g *cur, depth, id int) (res int) {
 		// panic in the middle of a function that already has results set
 		res = id
 		if g.next()%2 == 1 {
-			fault(g, id, g.next()%18)
+			fault(g, id, g.next()%25)
 		}
 	}
 	g.emit("leave " + strconv.Itoa(id) + " res=" + strconv.Itoa(res))
